@@ -56,6 +56,8 @@ type Contract struct {
 	Props    []string
 	Pos      string
 	Lets     []letDef
+	Isolate  map[string]int // label -> isolation group (one per `isolate` line)
+	nIsolate int
 	Hints    map[string][]*Clause // statement-ordinal -> asserted hints
 	Drops    []string             // callee names whose calls are dropped (no effect) in this function
 	Dead     []string             // return tags (ret5) that are expected to be unreachable (defensive code)
@@ -602,7 +604,7 @@ var clauseKeywords = map[string]bool{
 	"func": true, "lemma": true, "axiom": true, "ghost": true, "specfun": true, "mode": true,
 	"requires": true, "ensures": true, "assigns": true, "loop": true, "trusted": true, "pure": true,
 	"props": true, "let": true, "valuestruct": true, "constglobal": true, "guard": true, "canary": true, "nobody": true,
-	"hint": true, "drop": true, "end": true, "dead": true, "option": true,
+	"hint": true, "drop": true, "end": true, "dead": true, "option": true, "isolate": true,
 }
 
 // readSpecLines extracts the logical spec lines of a file. For .go files only
@@ -785,6 +787,19 @@ func (sp *Specs) loadFile(path string, defaultPkg string) error {
 			cur.Drops = append(cur.Drops, splitList(l.rest)...)
 		case "dead":
 			cur.Dead = append(cur.Dead, splitList(l.rest)...)
+		case "isolate":
+			// isolate L1, L2, ...: the hypotheses contributed by loop invariants labelled L1, L2, ... are given only to
+			// obligations whose own label is in the list (dropping hypotheses is always sound)
+			if cur == nil {
+				return fmt.Errorf("%s: isolate outside func", pos)
+			}
+			if cur.Isolate == nil {
+				cur.Isolate = map[string]int{}
+			}
+			cur.nIsolate++
+			for _, o := range splitList(l.rest) {
+				cur.Isolate[o] = cur.nIsolate // each isolate line is one group
+			}
 		case "option":
 			if cur.Options == nil {
 				cur.Options = map[string]bool{}
